@@ -847,6 +847,44 @@ func checkLarge(lc largeCase) *mc.Failure {
 	return nil
 }
 
+// ---- exact regime: every short history on a real counter ----
+//
+// The exact analysis above puts counters into states (buffer, threshold) with
+// a hook; state an implementation keeps elsewhere (a memo of the last value, a
+// run length) is invisible to it. Here every history of Add(0), Add(1), Add(2)
+// and Reset up to a length bound runs on one real counter whose buffer is
+// larger than the number of values, so that no random word can matter: Count
+// and Len must equal the number of distinct values since the last Reset after
+// every call.
+
+type histCase struct {
+	Size int   `json:"buffer_size"`
+	Ops  []int `json:"ops"` // 0,1,2 = Add(value), 3 = Reset
+}
+
+func checkHist(h histCase) *mc.Failure {
+	var ctr *distinct.Counter[int]
+	if mc.HooksEnabled {
+		ctr = newCounter(h.Size, rand.NewPCG(1, 2))
+	} else {
+		ctr = distinct.NewCounter[int](h.Size)
+	}
+	seen := map[int]bool{}
+	for i, o := range h.Ops {
+		if o == 3 {
+			ctr.Reset()
+			seen = map[int]bool{}
+		} else {
+			ctr.Add(o)
+			seen[o] = true
+		}
+		if ctr.Len() != len(seen) || ctr.Count() != uint64(len(seen)) {
+			return mc.Failf(i, "buffer of %d, history %v (3 = Reset): after call %d Len=%d Count=%d, want both %d (exact regime)", h.Size, h.Ops[:i+1], i, ctr.Len(), ctr.Count(), len(seen))
+		}
+	}
+	return nil
+}
+
 // ---- statistical complement ----
 //
 // When the harness cannot own the randomness of a configuration (the code
@@ -1056,6 +1094,34 @@ func main() {
 			}
 			e := newExplorer(&t.Cfg)
 			return e.checkStream(t.Stream)
+		},
+	}, mc.Harness{
+		Name: "cvm-histories",
+		Explore: func(r *mc.Run) {
+			L := mc.Pick(r, 9, 11)
+			seqs := mc.AllSeqs(4, L)
+			mc.ParallelFor(len(seqs), r.Workers, func(i int) {
+				if len(seqs[i]) < L && len(seqs[i]) > 3 {
+					return // prefixes are checked on the way; only maximal histories (and the very short ones) run
+				}
+				for _, size := range []int{4, 9} {
+					h := histCase{size, seqs[i]}
+					if f := mc.GuardT("cvm-histories", h, func() *mc.Failure { return checkHist(h) }); f != nil {
+						r.Violation(mc.Case{Harness: "cvm-histories", Trace: mc.J(h), Msg: f.Msg, Step: f.Step})
+					}
+				}
+			})
+			n := int64(len(seqs))
+			r.AddEval(n, n, n, n)
+			r.Rule(fmt.Sprintf("every history of Add(0), Add(1), Add(2), Reset of length %d on a real counter (no state hook) with buffers 4 and 9: exact Count and Len after every call", L))
+			r.Sample(histCase{4, []int{0, 0, 0, 0, 0, 0, 3, 0}})
+		},
+		Replay: func(c mc.Case) *mc.Failure {
+			var h histCase
+			if err := mc.Unmarshal(c.Trace, &h); err != nil {
+				return mc.Failf(-1, "bad trace: %v", err)
+			}
+			return checkHist(h)
 		},
 	}, mc.Harness{
 		Name: "cvm-large", HangLimit: 20 * time.Minute,
